@@ -1,5 +1,6 @@
 import SMV.Model.World
 import SMV.Lemmas.Registry
+import SMV.Model.Expr
 /-!
 # C12 — Listeners and the model are first-class callback providers, attached once
 
@@ -382,3 +383,80 @@ example :
      (.named 5 2, 52, 10, none, true)] := by decide
 
 end SMV.Reg
+
+/-! ## Guards given as boolean expressions, listeners attached late (`GExpr.constructPasses`)
+
+Every attachment pass that provides all names of an entry contributes that entry once more, over its own
+providers; the transition is enabled iff the guards of the constructor pass *and* those of every late pass hold:
+"a guard name provided by several objects must hold on all of them", attachment by attachment. -/
+namespace SMV.GExpr
+
+/-- the guard loop over a concatenation: the second list is consulted iff the first one passed entirely -/
+theorem allLib_append_val (S : Sem) (ρ : Env) (g1 g2 : List Guard) :
+    (allLib S ρ (g1 ++ g2)).val =
+      match (allLib S ρ g1).val with
+      | some true => (allLib S ρ g2).val
+      | v => v := by
+  induction g1 with
+  | nil => simp [allLib]
+  | cons g gs ih =>
+    simp only [List.cons_append, allLib]
+    cases h : (evalLib S ρ false g.e).val with
+    | none => simp
+    | some v =>
+      simp only
+      by_cases hv : (truthy v == g.expected) = true
+      · simp only [hv, if_true]
+        exact ih
+      · simp [hv]
+
+/-- **C12 (late guard expressions).** With the registered guards `gs` of the constructor pass and the guards
+`ls` contributed by late passes, the transition is enabled iff both lists pass. -/
+theorem C12_late_guards_conj (S : Sem) (ρ : Env) (gs ls : List Guard) :
+    (allLib S ρ (gs ++ ls)).val = some true ↔
+      (allLib S ρ gs).val = some true ∧ (allLib S ρ ls).val = some true := by
+  rw [allLib_append_val]
+  cases h : (allLib S ρ gs).val with
+  | none => simp
+  | some b => cases b <;> simp
+
+/-- no late pass: construction as before -/
+theorem constructPasses_nil (prov : Nat → List Nat) (entries : List (Src × Bool × Bool)) :
+    constructPasses prov [] entries =
+      match construct prov (entries.map fun en => (en.1, en.2.1)) with
+      | .ok gs => .ok gs
+      | .invalidDefinition => .invalidDefinition := by
+  unfold constructPasses
+  cases construct prov (entries.map fun en => (en.1, en.2.1)) <;> simp
+
+/-- a late pass never turns a constructible machine into an error, and never removes a guard -/
+theorem constructPasses_ok (prov : Nat → List Nat) (lates : List (Nat → List Nat)) (entries : List (Src × Bool × Bool))
+    (gs : List Guard) (h : construct prov (entries.map fun en => (en.1, en.2.1)) = .ok gs) :
+    constructPasses prov lates entries = .ok (gs ++ lates.flatMap fun p => lateGuards p entries) := by
+  unfold constructPasses
+  rw [h]
+
+/-- an entry some name of which the pass does not provide contributes nothing in that pass -/
+theorem lateGuards_unknown (prov : Nat → List Nat) (e : E) (x : Bool) (h : (unknowns prov e).isEmpty = false) :
+    lateGuards prov [(.parsed e, x, true)] = [] := by
+  have : unknowns prov e ≠ [] := by
+    intro he; rw [he] at h; simp at h
+  simp [lateGuards, this]
+
+/-- an entry given as an object (function, property) is not resolved again by `add_listener` -/
+theorem lateGuards_by_object (prov : Nat → List Nat) (src : Src) (x : Bool) :
+    lateGuards prov [(src, x, false)] = [] := by
+  cases src <;> simp [lateGuards]
+
+/-- non-vacuity / the D29 shape: `cond="!n0"`, constructor provider slot 0 (True), late provider slot 1 (False):
+two guards, not enabled; had the late provider been a constructor provider: one guard, enabled -/
+example :
+    let entries : List (Src × Bool × Bool) := [(.parsed (.not (.name 0)), true, true)]
+    let ρ : Env := fun s => .bool (s == 0)
+    (match constructPasses (fun _ => [0]) [fun _ => [1]] entries with
+      | .ok gs => (gs.length, (allLib pySem ρ gs).val) | .invalidDefinition => (0, none)) = (2, some false) ∧
+    (match constructPasses (fun _ => [0, 1]) [] entries with
+      | .ok gs => (gs.length, (allLib pySem ρ gs).val) | .invalidDefinition => (0, none)) = (1, some true) := by
+  decide
+
+end SMV.GExpr
